@@ -1,11 +1,13 @@
 """C10 - slot semaphore is bounded, conserved and never leaked.
 Lane L0: the real LaxBoundedSemaphore against a counter-with-cap model after
 every operation of seeded sequences; multi-threaded stress with the bound
-checked under the semaphore's own lock, no lost wake-up, conservation.
+checked under the semaphore's own lock, no lost wake-up, conservation;
+shrink() while every slot is taken (nobody is served until a slot comes back).
 Lane SIM: put-lock pools - value within bounds after every step, exact
 conservation (value == size - in flight) in slot-governed histories without
 worker exits, never more than `size` in flight, all slots free at quiescence
-after deaths / recycles / time-limit kills / failed sends / grow / shrink.
+after deaths / recycles / time-limit kills / failed sends / grow / shrink;
+success callbacks raising an exception listed in callbacks_propagate.
 Lane REAL (vmon.real_c10): a blocked submitter thread on a real pool."""
 from vmon import simcheck, l0_small
 
